@@ -141,7 +141,11 @@ JvecF(r, f) ==
   IF ~MisfitOK(r, f) THEN <<r, f, "error", None>> ELSE
   LET c == MisfitF(r, f)
       r1 == c[1]
-  IN IF ~AllE(r1, c[2]) THEN <<r1, c[2], "error", None>>
+  IN IF ~AllE(r1, c[2])
+     THEN \* inputs are collected pair by pair; each collected pair sets
+          \* solver_opts['tol'] = tol_gradient before a missing efield fails
+          <<[r1 EXCEPT !.tol = IF EContent(r1, c[2], 1) \notin {None, Gone}
+                               THEN "grad" ELSE @], c[2], "error", None>>
      ELSE <<[r1 EXCEPT !.tol = "grad", !.jv = TRUE], c[2], "value",
             EProv(r1, c[2])>>
 
